@@ -572,6 +572,9 @@ def rules(rep, facts):
     # exactly its ABNF production, or text meant to be trimmed becomes content (and vice versa) although the string as a whole is still accepted
     from .rules_c01 import r10_regular_language
     r10_regular_language(rep, g, a, only_prefix='strings::', rid='C02/R12')
+    # the tree the parser builds for a model document equals the tree an independent decoder gives (semantic actions and parser state evaluated end to end; shared with C09/R10)
+    from .rules_events import r_verdicts
+    r_verdicts(rep, facts, rid='C02/R14')
     if 'toml' in facts.crates:
         r13_value_visit_map(rep, facts, facts.config)
         if facts.config == 'default':
